@@ -21,12 +21,14 @@ import re
 import common as C
 import diaglib as D
 import fa_run
+import res_run
+import imp_run
 import gen_modules as G
 import imp_lib as I
 
 PROP = "C07"
 PROOF_FILES = ["proofs/ImpProofs.v", "proofs/ResFuel.v", "proofs/C01Complete.v", "proofs/C07Proofs.v", "props/C07.v"]
-MODEL_FILES = fa_run.MODEL_FILES + ["model/CallSwaps.v", "model/Results.v", "model/Imports.v", "model/Annot.v"]
+MODEL_FILES = sorted(set(fa_run.MODEL_FILES + res_run.MODEL_FILES + imp_run.MODEL_FILES + ["model/Annot.v"]))
 _ANSI = re.compile(r"\x1b\[[0-9;]*m")
 
 # finding classes: construct labels -> (KF id, exception classes)
@@ -119,6 +121,21 @@ def main(tier: str) -> int:
         if fp["outcome"][0] == "raise":
             fa_new.append({"why": f"FileAnalyser ended in an escaping {fp['outcome'][1]}: {fp['outcome'][2]}", "module_source_tail": fp["module_source"]})
 
+    # (a') result generation: the call-graph suite of C03 and the multi-module suite of C06 (an escaping exception while
+    # building / folding the call trees is a crash like any other)
+    res = res_run.run(tier)
+    gen_raised = 0
+    for code, m in res["cases"]:
+        if m.get("raised"):
+            gen_raised += 1
+            fa_new.append({"why": f"generate_results_from_ir ended in an escaping {m['raised']}", "program": m["program"], "source": m["source"], "variant": m["variant"]})
+    imp = imp_run.run(tier)
+    for code, m in imp["cases"]:
+        r = m["multi"].get("raised")
+        if r and not str(r).startswith("SystemExit"):
+            gen_raised += 1
+            fa_new.append({"why": f"the multi-module pipeline ended in an escaping {r}", "project": m["project"], "files": m["files"], "stderr": m["multi"].get("stderr")})
+
     # (b) module shapes as subprocesses
     labels = [l for l, _ in G.CONSTRUCTS]
     src_of = dict(G.CONSTRUCTS)
@@ -205,7 +222,7 @@ def main(tier: str) -> int:
                 f"{len(G.CONSTRUCTS)} labelled module-level constructs (imports of every form incl. star / relative / missing / stdlib / extension modules, definitions with every decorator and parameter shape, definitions inside every compound statement, lambdas in every assignment shape, "
                 "classes: enum / NamedTuple / dataclass / nested / generic / body statements, every assignment target shape, match / try* / with / type aliases, non-ASCII identifiers, empty module) each alone, on the imported side, in random combinations and all benign ones together, "
                 f"x {len(G.OPTION_SETS)} option sets (-f 0/2, --strict, --threshold, -w, -o ir/stats/cacheable/silent, -H -T, -x, -F, -C, -C -r); fixed projects: re-export cycle, import cycle, one file under two module names, stdlib extension module at -f 3, deep nesting, 300-link attribute chain, 120-function call chain",
-        "function_outcomes": dict(fa_outcomes), "raises_in_unmodelled_functions_classified_by_exception_class_only": unmodelled_by_class[0], "subprocess_runs": len(jobs), "subprocess_verdicts": dict(verdicts),
+        "function_outcomes": dict(fa_outcomes), "result_generation_programs": len(res["cases"]) + len(imp["cases"]), "result_generation_raises": gen_raised, "raises_in_unmodelled_functions_classified_by_exception_class_only": unmodelled_by_class[0], "subprocess_runs": len(jobs), "subprocess_verdicts": dict(verdicts),
         "traces_validated_against_impl": len(fa["cases"]), "disagreements_checked": sum(1 for c, m in fa["cases"] if (c & 1) and not (c & 64)),
         "crashes_new": len(fa_new) + len(new), "crashes_known_class": {k: len(v) for k, v in known.items()},
         "print_assumptions": pa, "broken_obligation_files": broken, "samples": [new[0] if new else (next(iter(known.values()))[0] if known else None)]},
